@@ -160,6 +160,11 @@ def one_run(ctx, scen_idx, k, phase, repeat, baseline=None):
     env = jedi.create_environment("/venv/bin/python", safe=False)
     os.environ.pop("VERIF_C14_PLAN", None)
     first_pid = next(iter(_state["pids"]), None)
+    # a caller that keeps something made before the crash (a Script's inference state references the helper object):
+    # the dead helper's pipes must be closed when its death is handled, not whenever the last reference goes away
+    held = env._subprocess
+    gc.collect()
+    fd_live = fds()
     outcomes = []
     for r in range(repeat):
         _state["count"] = 0
@@ -208,6 +213,13 @@ def one_run(ctx, scen_idx, k, phase, repeat, baseline=None):
         devs.append(("answer-after-recovery-differs:%s" % phase, "%r k=%d" % (code, k)))
     pids = set(_state["pids"])
     served_by_other = len(pids) >= 2
+    if after is not None and not devs:
+        gc.collect()
+        fd_mid = fds()
+        if fd_mid > fd_live:
+            devs.append(("pipes-of-dead-helper-open-while-still-referenced:%s" % phase,
+                         "%r k=%d: %d fds with one live helper before the crash, %d with one live helper after recovery" % (code, k, fd_live, fd_mid)))
+    del held
     # release everything and look at the process table
     sub = env._subprocess
     del env
